@@ -87,6 +87,12 @@ def generate_jakes_samples(
         else:
             psi_l = np.random.rand(L, *shape, 1)
 
+    # The phases are used in double precision whatever container or element
+    # type they come in (numpy evaluates the cosine of an int16 or float32
+    # array in single precision).
+    phi_l = np.asarray(phi_l, dtype=float)
+    psi_l = np.asarray(psi_l, dtype=float)
+
     # Update the self._current_time variable with the value of the next
     # time sample that should be generated when _generate_time_samples
     # is called again.
